@@ -3,9 +3,9 @@
 SPECIFICATION Spec
 CONSTANTS
   MaxBody = 1
-  Alphabet = {"assertEq", "plain"}
+  Alphabet = {"assertEq", "plain", "thisHelper"}
   AnnoKinds = {"T", "TI", "IT"}
-  HelperKinds = {"none"}
+  HelperKinds = {"none", "assert"}
   PathKinds = {"flatTest", "mavenTest"}
   Repaired = FALSE
 INVARIANTS C11_FindingsExact C11_OnlyTestFiles C11_FileAttribution C11_LoopBounds
